@@ -724,19 +724,45 @@ func checkC04Segmentation(c *Ctx) {
 	}
 	// dense unspaced strings over keyword glyphs and ordinary letters vs. greedy segmenter
 	dense := []rune("甲乙丙丁价格手机游所" + string(c04KeywordGlyphs) + "为之令以其且或的")
-	for i := 0; i < c.Pick(20000, 1000000); i++ {
-		m := 1 + rng.Intn(10)
-		rs := make([]rune, m)
-		for j := range rs {
-			rs[j] = dense[rng.Intn(len(dense))]
+	// … first the near-keywords: every keyword with one of its glyphs replaced by a glyph of another
+	// keyword (结续循环, 继束循环, 如何新键 …), alone and inside a name: only the real keywords that
+	// still occur in it may be cut out
+	mutants := [][]rune{}
+	for _, kw := range c04Keywords {
+		k := []rune(kw.s)
+		if len(k) < 2 {
+			continue
 		}
-		if rng.Intn(3) == 0 {
-			k := []rune(c04Keywords[rng.Intn(len(c04Keywords))].s)
-			p := rng.Intn(len(rs) + 1)
-			rs = append(append(append([]rune{}, rs[:p]...), k...), rs[p:]...)
+		for p := range k {
+			for _, g := range c04KeywordGlyphs {
+				if g == k[p] {
+					continue
+				}
+				m := append([]rune{}, k...)
+				m[p] = g
+				mutants = append(mutants, m, append(append([]rune("甲"), m...), '乙'))
+			}
 		}
-		if rng.Intn(5) == 0 {
-			rs = append(rs, []rune(fmt.Sprint(rng.Intn(100)))...)
+	}
+	c.Count("near_keyword_strings", int64(len(mutants)))
+	for i := 0; i < len(mutants)+c.Pick(20000, 1000000); i++ {
+		var rs []rune
+		if i < len(mutants) {
+			rs = mutants[i]
+		} else {
+			m := 1 + rng.Intn(10)
+			rs = make([]rune, m)
+			for j := range rs {
+				rs[j] = dense[rng.Intn(len(dense))]
+			}
+			if rng.Intn(3) == 0 {
+				k := []rune(c04Keywords[rng.Intn(len(c04Keywords))].s)
+				p := rng.Intn(len(rs) + 1)
+				rs = append(append(append([]rune{}, rs[:p]...), k...), rs[p:]...)
+			}
+			if rng.Intn(5) == 0 {
+				rs = append(rs, []rune(fmt.Sprint(rng.Intn(100)))...)
+			}
 		}
 		// greedy reference segmentation
 		exp := []expTok{}
@@ -842,7 +868,7 @@ func tokDesc(ts []Tok) string {
 }
 
 func checkC04(c *Ctx) {
-	c.rule = "(1) alphabet: IdInRange for every code point in [-70000, 0x110400) against a linear scan of the range table (hook H6), table sortedness, lexer agreement on lone characters; (2) numeric form: every string up to length 5 (quick) / 7 (thorough) over {0,1,7,+,-,.,e,E,*,^,x}, every live prefix of a valid number x every suffix up to length 3, random long mutated numbers, digit strings of 300 … 3000 digits before / after the point brought back into range by the exponent, exponents at and beyond the edges of the 32- and 64-bit integers after digit strings of 1 … 1500 digits, up to 100003 leading zeros before / after the point with five- and six-digit exponents: classification number / rejected / name by the documented form (anchored regexp) and value = correctly rounded double via math/big; (3) segmentation: random token sequences (34 keywords, names over CJK/Latin/Greek/kana/hangul with embedded + - * / . % _ and stray keyword glyphs, backtick names containing keywords, numbers, operators, both punctuation forms, literals, comments) rendered with the fewest blanks the rules require must tokenise to exactly that sequence with in-bounds non-overlapping spans; dense unspaced strings over keyword glyphs against a leftmost-greedy segmenter. distinct_nontrivial = table entries + distinct (class, digit-collapsed shape) of numeric strings + distinct (token-kind sequence, source prefix)"
+	c.rule = "(1) alphabet: IdInRange for every code point in [-70000, 0x110400) against a linear scan of the range table (hook H6), table sortedness, lexer agreement on lone characters; (2) numeric form: every string up to length 5 (quick) / 7 (thorough) over {0,1,7,+,-,.,e,E,*,^,x}, every live prefix of a valid number x every suffix up to length 3, random long mutated numbers, digit strings of 300 … 3000 digits before / after the point brought back into range by the exponent, exponents at and beyond the edges of the 32- and 64-bit integers after digit strings of 1 … 1500 digits, up to 100003 leading zeros before / after the point with five- and six-digit exponents: classification number / rejected / name by the documented form (anchored regexp) and value = correctly rounded double via math/big; (3) segmentation: random token sequences (34 keywords, names over CJK/Latin/Greek/kana/hangul with embedded + - * / . % _ and stray keyword glyphs, backtick names containing keywords, numbers, operators, both punctuation forms, literals, comments) rendered with the fewest blanks the rules require must tokenise to exactly that sequence with in-bounds non-overlapping spans; dense unspaced strings over keyword glyphs, and every keyword with one glyph replaced by a glyph of another keyword (alone and inside a name), against a leftmost-greedy segmenter. distinct_nontrivial = table entries + distinct (class, digit-collapsed shape) of numeric strings + distinct (token-kind sequence, source prefix)"
 	c.assumptions = []string{"keyword spellings and token type codes are transcribed from the manual / public constants", "'.12'-style strings are not asserted", "alphabet monitor is exhaustive over all code points; lexer agreement is sampled in quick and BMP-exhaustive in thorough"}
 	checkC04Alphabet(c)
 	checkC04Numeric(c)
